@@ -2,7 +2,7 @@
 // that fold's training and validation indices from the splitter, stores the returned statistics under that (trial, fold), and
 // reports as optimum the trial with the smallest mean validation error across folds - for EVERY error landscape (the values
 // returned by the callback are symbolic reals).
-// config: n=<samples>;folds=<k>;g=<grid size>;evals=<max_evals>;per=<values per returned tensor: 1|2>;order=<0|1>
+// config: n=<samples>;folds=<k>;g=<grid size>;evals=<max_evals>;per=<values per returned tensor: 1|2>;order=<0|1>;uneven=<1: fold f returns per+f values>
 //   order=1: validation errors decrease with the grid index (forces the tuner to walk), order=0: unconstrained
 #include "hcommon.h"
 #include <any>
@@ -77,8 +77,11 @@ extern "C" void sym_body()
         }
         c.id = static_cast<int>(calls.size());
         const long gi = g > 0 ? static_cast<long>((c.param - 1.0) / 0.5 + 0.25) : 0;
-        tensor2d_t trv(2, per), vdv(2, per);
-        for (tensor_size_t s = 0; s < per; ++s)
+        // uneven=1: the folds return tensors of DIFFERENT lengths (validation folds of different sizes, as k-fold produces whenever
+        // the sample count is not a multiple of the fold count): the trial value is still the plain mean of the per-fold means
+        const long cnt = per + (cfgi("uneven", 0) && c.fold > 0 ? c.fold : 0);
+        tensor2d_t trv(2, cnt), vdv(2, cnt);
+        for (tensor_size_t s = 0; s < cnt; ++s)
         {
             trv(0, s) = sym_box(sym_nm("te", gi, c.fold * 4 + s), 0.0, 100.0);
             trv(1, s) = sym_box(sym_nm("tl", gi, c.fold * 4 + s), -100.0, 100.0);
